@@ -25,7 +25,8 @@ for name in sorted(res):
     ob = first.split(' status=')[0]
     st = ''
     if ' status=' in first:
-        st = first.split(' status=')[1].split()[0]
+        rest = first.split(' status=')[1].split()
+        st = rest[0] if rest else ''
     print("| %s | %s | %s | %s (%s) | %s%s |" % (name, prop, what, verdict, viol.replace('violations=', '') + ' violations', '`' + ob + '`' if ob else '-', (' (' + st + ')') if st else ''))
 det = sum(1 for v in res.values() if v[1] == 'exit=1')
 print()
